@@ -25,6 +25,10 @@ const (
 	VerifDir = "/verif"
 )
 
+// SelfPkg is the main package of the running driver (set by driver.Main), so
+// that BuildSelf rebuilds the same binary with other flags.
+var SelfPkg = "./cmd/vcheck"
+
 // Run is the context of one check invocation.
 type Run struct {
 	ID      string
@@ -477,7 +481,16 @@ func (r *Run) BuildSelf(extra ...string) (string, error) {
 		return out, nil
 	}
 	os.MkdirAll(filepath.Dir(out), 0o755)
-	return out, GoBuild(filepath.Join(VerifDir, "framework"), out, "./cmd/vcheck", extra...)
+	return out, GoBuild(FrameworkDir(), out, SelfPkg, append([]string{"-tags", "verif"}, extra...)...)
+}
+
+// FrameworkDir is the module directory of this framework; VERIF_FRAMEWORK
+// overrides it (used when developing in a scratch copy).
+func FrameworkDir() string {
+	if d := os.Getenv("VERIF_FRAMEWORK"); d != "" {
+		return d
+	}
+	return filepath.Join(VerifDir, "framework")
 }
 
 // Parallel runs f(i) for i in [0,n) on w workers.
